@@ -399,7 +399,7 @@ CL_Z6 = [Clause('list-of-AnsiStr-counterparts', 'post_list_wrapper_equiv'),
 
 
 def z6_items(tier):
-    return [['split'], ['rsplit'], ['partition'], ['rpartition']]
+    return [['split'], ['rsplit'], ['partition'], ['rpartition']] + [['splitlines', n] for n in range(0, 4)]
 
 
 def z6_task(envr, item):
@@ -407,9 +407,16 @@ def z6_task(envr, item):
 
     def body(c):
         ab.install(c)
-        x, inner = wrapped_ansistr(c, 'w')
-        sep = sym.s_opaque(c.opaque_text('Sep', 1))
-        args = [sep] if mname in ('partition', 'rpartition') else [sep, c.named_int('maxsplit')]
+        if mname == 'splitlines':
+            # text of concrete length with symbolic characters (str.splitlines is modelled on those), abstract table
+            from contracts_helpers import hybrid_string
+            inner = hybrid_string(c, 'w', item[1])
+            x = PObj('AnsiStr', {'__payload__': summaries.abs_to_str(None, None, [inner], {}), '_s': inner})
+            args = [c.named_bool('keepends')] if c.choice(2) else []
+        else:
+            x, inner = wrapped_ansistr(c, 'w')
+            sep = sym.s_opaque(c.opaque_text('Sep', 1))
+            args = [sep] if mname in ('partition', 'rpartition') else [sep, c.named_int('maxsplit')]
         before = heap.snapshot(inner)
         run_contract(envr, c, 'AnsiStr.' + mname, x, args, {}, CL_Z6,
                      fields={'mname': mname, 'margs': tuple(args), 'wrapped': inner, 'wrapped_before': before})
@@ -417,6 +424,6 @@ def z6_task(envr, item):
 
 
 GROUPS.append(Group('Z6', 'AnsiStr.split/rsplit/partition/rpartition wrap each piece of the AnsiString result as AnsiStr',
-                    ['C13', 'C11'], 'U', ['AnsiStr.split', 'AnsiStr.rsplit', 'AnsiStr.partition', 'AnsiStr.rpartition'],
-                    z6_items, z6_task, bounds='explicit separator, results of at most 3 pieces; abstract table',
+                    ['C13', 'C11'], 'U', ['AnsiStr.split', 'AnsiStr.rsplit', 'AnsiStr.partition', 'AnsiStr.rpartition', 'AnsiStr.splitlines'],
+                    z6_items, z6_task, bounds='explicit separator, results of at most 3 pieces; abstract table; splitlines on texts of length <=3',
                     assumes=['G2', 'V5']))
